@@ -2,8 +2,9 @@ package quic_test
 
 // C17: every way a connection ends unblocks callers, informs the peer, frees resources.
 // E2: close cause x set of concurrently blocked client API calls x timing of the cause x
-// idle/keep-alive configuration x fault on the closing exchange, all enumerated and run on
-// the real client and server in virtual time.
+// idle/keep-alive configuration x fault on the closing exchange x history of the connection
+// (fresh Dial, resumed with 0-RTT accepted, resumed with 0-RTT rejected and continued with
+// NextConnection), all enumerated and run on the real client and server in virtual time.
 
 import (
 	"context"
@@ -25,6 +26,7 @@ import (
 	"github.com/refraction-networking/uquic/internal/verifmc/sim"
 	"github.com/refraction-networking/uquic/internal/verifmc/wiremon"
 	"github.com/refraction-networking/uquic/qlogwriter"
+	tls "github.com/refraction-networking/utls"
 )
 
 var c17Causes = []string{"local-close", "remote-close", "idle-timeout", "transport-close", "stateless-reset", "handshake-timeout", "dial-cancel", "keepalive-then-blackhole", "idle-timeout-sending", "fatal-transport-error", "close-during-dial"}
@@ -32,6 +34,14 @@ var c17Causes = []string{"local-close", "remote-close", "idle-timeout", "transpo
 // blocked client calls
 // (the "#2" entries are a second concurrent caller of the same blocking call)
 var c17Calls = []string{"Read", "Write", "AcceptStream", "AcceptUniStream", "OpenStreamSync", "ReceiveDatagram", "AcceptStream#2", "AcceptUniStream#2", "OpenStreamSync#2", "ReceiveDatagram#2"}
+
+// how the connection under test came to be (its history before the close cause): "" = a fresh
+// Dial; "0rtt-accepted" = the client resumes a session with DialEarly, opens its streams and
+// writes before the handshake completes, the server accepts the early data; "0rtt-rejected" =
+// the same resumption against a server whose configuration changed: the early data is
+// discarded, the application sees Err0RTTRejected, carries on with NextConnection and uses the
+// connection normally from then on
+var c17Hists = []string{"", "0rtt-accepted", "0rtt-rejected"}
 
 var c17Timings = []struct {
 	Name string
@@ -49,7 +59,8 @@ type c17Config struct {
 	When   int          `json:"when"`  // 0: right after the handshake, 1: 300 ms later (streams established, calls blocked), 2: during a transfer; for handshake causes: datagram ordinal
 	Timing int          `json:"timing"`
 	Kind   string       `json:"kind"`
-	Faults sim.FaultMap `json:"faults"` // applied from the moment of the cause
+	Faults sim.FaultMap `json:"faults"`         // applied from the moment of the cause
+	Hist   string       `json:"hist,omitempty"` // one of c17Hists (causes after the handshake only)
 	Seed   uint64       `json:"seed"`
 }
 
@@ -58,7 +69,11 @@ func (c c17Config) String() string {
 	for _, i := range c.Calls {
 		cs = append(cs, c17Calls[i])
 	}
-	return fmt.Sprintf("%s calls=[%s] when=%d %s %s faults=%v", c17Causes[c.Cause], strings.Join(cs, ","), c.When, c17Timings[c.Timing].Name, c.Kind, c.Faults)
+	h := ""
+	if c.Hist != "" {
+		h = " history=" + c.Hist
+	}
+	return fmt.Sprintf("%s calls=[%s] when=%d %s %s faults=%v%s", c17Causes[c.Cause], strings.Join(cs, ","), c.When, c17Timings[c.Timing].Name, c.Kind, c.Faults, h)
 }
 
 type c17CallResult struct {
@@ -102,7 +117,9 @@ func c17Run(t *testing.T, cfg c17Config) c17Result {
 		sconf := &quic.Config{MaxIdleTimeout: tm.Idle, EnableDatagrams: true, MaxIncomingStreams: 2, MaxIncomingUniStreams: 2,
 			InitialStreamReceiveWindow: 2048, MaxStreamReceiveWindow: 2048, InitialConnectionReceiveWindow: 4096, MaxConnectionReceiveWindow: 4096}
 		cconf := &quic.Config{MaxIdleTimeout: tm.Idle, KeepAlivePeriod: tm.KA, EnableDatagrams: true}
-		ln, err := w.ListenWith(w.ServerTLS(false), sconf, func(tr *quic.Transport) { tr.StatelessResetKey = &resetKey })
+		sconf.Allow0RTT = cfg.Hist != ""
+		stls := w.ServerTLS(false)
+		ln, err := w.ListenWith(stls, sconf, func(tr *quic.Transport) { tr.StatelessResetKey = &resetKey })
 		if err != nil {
 			t.Fatal(err)
 		}
@@ -113,26 +130,30 @@ func c17Run(t *testing.T, cfg c17Config) c17Result {
 		d, cep, _ := w.NewDialer(kind)
 		var wg sync.WaitGroup
 		var sconn *quic.Conn
-		sready := make(chan struct{})
-		wg.Add(1)
-		go func() {
-			defer wg.Done()
-			c, err := ln.Accept(ctx)
-			if err == nil {
-				sconn = c
-				// the server application accepts streams but never reads or answers
-				wg.Add(1)
-				go func() {
-					defer wg.Done()
-					for {
-						if _, err := c.AcceptStream(ctx); err != nil {
-							return
+		acceptOne := func(ln *quic.Listener) chan struct{} {
+			ready := make(chan struct{})
+			wg.Add(1)
+			go func() {
+				defer wg.Done()
+				c, err := ln.Accept(ctx)
+				if err == nil {
+					sconn = c
+					// the server application accepts streams but never reads or answers
+					wg.Add(1)
+					go func() {
+						defer wg.Done()
+						for {
+							if _, err := c.AcceptStream(ctx); err != nil {
+								return
+							}
 						}
-					}
-				}()
-			}
-			close(sready)
-		}()
+					}()
+				}
+				close(ready)
+			}()
+			return ready
+		}
+		sready := acceptOne(ln)
 		teardown := func(conn *quic.Conn) {
 			cancel()
 			if conn != nil {
@@ -256,10 +277,94 @@ func c17Run(t *testing.T, cfg c17Config) c17Result {
 		}
 
 		// ---------------- causes after the handshake
-		conn, err := d.Dial(ctx, w.ServerAddr, w.ClientTLS(), cconf)
+		ctls := w.ClientTLS()
+		// the server allows 2 bidirectional streams; use them up so that OpenStreamSync blocks
+		var held []*quic.Stream
+		openHeld := func(conn *quic.Conn) {
+			for i := 0; i < 2; i++ {
+				s, err := conn.OpenStreamSync(ctx)
+				if err != nil {
+					fail("setup", "OpenStreamSync: %v", err)
+					break
+				}
+				s.Write([]byte{1})
+				held = append(held, s)
+			}
+		}
+		var conn *quic.Conn
+		logStart := 0 // where the connection under test begins in the router's full log
+		if cfg.Hist == "" {
+			conn, err = d.Dial(ctx, w.ServerAddr, ctls, cconf)
+		} else {
+			// an earlier connection leaves a session ticket behind
+			ctls.ClientSessionCache = tls.NewLRUClientSessionCache(8)
+			c1, err1 := d.Dial(ctx, w.ServerAddr, ctls, cconf)
+			if err1 != nil {
+				fail("setup", "first Dial (session ticket) failed: %v", err1)
+				teardown(nil)
+				return
+			}
+			<-sready
+			time.Sleep(200 * time.Millisecond)
+			c1.CloseWithError(0, "")
+			time.Sleep(100 * time.Millisecond)
+			if sconn != nil {
+				sconn.CloseWithError(0, "")
+				sconn = nil
+			}
+			if cfg.Hist == "0rtt-rejected" {
+				// the server comes back with a configuration under which it may not accept early data
+				ln.Close()
+				sconf2 := sconf.Clone()
+				sconf2.Allow0RTT = false
+				if ln, err = w.ServerTr.Listen(stls, sconf2); err != nil {
+					t.Fatal(err)
+				}
+			}
+			sready = acceptOne(ln)
+			logStart = len(w.Router.FullLog())
+			conn, err = d.DialEarly(ctx, w.ServerAddr, ctls, cconf)
+			if err == nil && conn.ConnectionState().TLS.HandshakeComplete {
+				fail("setup", "DialEarly returned after the handshake: no 0-RTT was attempted")
+			}
+			if err == nil && res.fail == nil {
+				// early data: on the streams the scenario keeps (accepted), on a stream that is lost (rejected)
+				if cfg.Hist == "0rtt-accepted" {
+					openHeld(conn)
+				} else if us, err := conn.OpenUniStream(); err == nil {
+					us.Write([]byte("early data"))
+					us.Close()
+				}
+				select {
+				case <-conn.HandshakeComplete():
+				case <-conn.Context().Done():
+					fail("setup", "the resumed connection failed during the handshake: %v", context.Cause(conn.Context()))
+				case <-time.After(20 * time.Second):
+					fail("setup", "the resumed handshake did not complete")
+				}
+			}
+			if err == nil && res.fail == nil {
+				used := conn.ConnectionState().Used0RTT
+				if used != (cfg.Hist == "0rtt-accepted") {
+					fail("setup", "history %s, but Used0RTT=%v", cfg.Hist, used)
+				} else if !used {
+					// the rejection is not fatal: the application is told, and goes on with the connection
+					if _, err := conn.OpenStream(); !errors.Is(err, quic.Err0RTTRejected) {
+						fail("setup", "OpenStream after the 0-RTT rejection returned %v, want Err0RTTRejected", err)
+					}
+					if conn, err = conn.NextConnection(ctx); err != nil {
+						fail("setup", "NextConnection: %v", err)
+					}
+				}
+			}
+		}
 		if err != nil {
 			fail("setup", "Dial failed: %v", err)
 			teardown(nil)
+			return
+		}
+		if res.fail != nil {
+			teardown(conn)
 			return
 		}
 		<-sready
@@ -292,16 +397,8 @@ func c17Run(t *testing.T, cfg c17Config) c17Result {
 			}
 			return false
 		}
-		// the server allows 2 bidirectional streams; use them up so that OpenStreamSync blocks
-		var held []*quic.Stream
-		for i := 0; i < 2; i++ {
-			s, err := conn.OpenStreamSync(ctx)
-			if err != nil {
-				fail("setup", "OpenStreamSync: %v", err)
-				break
-			}
-			s.Write([]byte{1})
-			held = append(held, s)
+		if cfg.Hist != "0rtt-accepted" {
+			openHeld(conn)
 		}
 		if res.fail != nil {
 			teardown(conn)
@@ -436,10 +533,10 @@ func c17Run(t *testing.T, cfg c17Config) c17Result {
 			// key log) carries STREAM data on stream 2, a client-initiated unidirectional stream on
 			// which only the client may send: the client must close with STREAM_STATE_ERROR
 			full := w.Router.FullLog()
-			n, ver, ok1 := wiremon.ClientCIDLen(full)
-			dcid, ok2 := wiremon.LastDCID(full, sim.S2C, n)
+			n, ver, ok1 := wiremon.ClientCIDLen(full[logStart:])
+			dcid, ok2 := wiremon.LastDCID(full[logStart:], sim.S2C, n)
 			if !ok2 { // no 1-RTT packet from the server yet: the client's handshake connection ID
-				dcid, ok2 = wiremon.ClientSCID(full)
+				dcid, ok2 = wiremon.ClientSCID(full[logStart:])
 			}
 			if !ok1 || !ok2 {
 				fail("setup", "cannot read the client's connection ID off the wire")
@@ -452,6 +549,14 @@ func c17Run(t *testing.T, cfg c17Config) c17Result {
 			}
 			for _, p := range pkts {
 				w.Router.Inject(w.ServerAddr, cep.LocalAddr(), p, 0)
+			}
+			if cfg.Hist == "0rtt-accepted" {
+				// the key log has no early traffic secret, so the monitor cannot learn the connection IDs the
+				// client issued in 0-RTT packets and does not open the server's later packets: the generation
+				// read off the wire may be one behind. The misbehaving peer follows up with the next one.
+				for _, p := range wiremon.Forge1RTT(w.KeyLog.Lines(), true, ver, gen+1, dcid, 1<<20+1, []byte{0x0a, 0x02, 0x01, 'x'}) {
+					w.Router.Inject(w.ServerAddr, cep.LocalAddr(), p, time.Microsecond)
+				}
 			}
 			wantRemote = "STREAM_STATE_ERROR(remote)"
 		case "stateless-reset":
@@ -636,6 +741,9 @@ func c17Run(t *testing.T, cfg c17Config) c17Result {
 			fail(f.Key, "%s", f.What)
 		}
 		res.class = fmt.Sprintf("%s ended~%v calls=%d", cause, (tEnd - tCause).Round(100*time.Millisecond), len(results))
+		if cfg.Hist != "" {
+			res.class += " history=" + cfg.Hist
+		}
 		res.ndgrams = w.Router.Count(sim.C2S) + w.Router.Count(sim.S2C)
 		_ = net.IPv4zero
 		teardown(conn)
@@ -675,9 +783,9 @@ func c17Subsets(n, maxSize int) [][]int {
 func c17Configs(e explore.Env) ([]c17Config, string) {
 	{
 		seed := uint64(e.Seed) + 31
-		maxSet := 3
+		maxSet, histSet := 3, 1
 		if e.Thorough() {
-			maxSet = 6
+			maxSet, histSet = 6, 2
 		}
 		sets := c17Subsets(len(c17Calls), maxSet)
 		var cfgs []c17Config
@@ -724,6 +832,16 @@ func c17Configs(e explore.Env) ([]c17Config, string) {
 					cfgs = append(cfgs, c17Config{Cause: ci, Calls: []int{0, 1, 4}, When: 1, Timing: ti, Kind: "plain", Seed: seed})
 				}
 				cfgs = append(cfgs, c17Config{Cause: ci, Calls: []int{0, 2, 5}, When: 1, Timing: 0, Kind: "chrome115", Seed: seed})
+				// the connection's history: a resumed connection whose 0-RTT data was accepted / was rejected
+				// (the application went on with NextConnection), then used and ended like any other
+				for _, h := range c17Hists[1:] {
+					hsets := append(c17Subsets(len(c17Calls), histSet), []int{0, 1, 4}, []int{2, 3, 4}, []int{0, 2, 5})
+					for _, set := range hsets {
+						for when := 0; when < 3; when++ {
+							cfgs = append(cfgs, c17Config{Cause: ci, Calls: set, When: when, Timing: 0, Kind: "plain", Hist: h, Seed: seed})
+						}
+					}
+				}
 				// a fault on the closing exchange: the first / second datagram after the cause is lost or duplicated
 				if cause == "local-close" || cause == "remote-close" {
 					for _, m := range sim.AllFaultMaps([2]int{2, 2}, []sim.Fate{sim.Drop, sim.Dup, sim.Delay}, 1) {
@@ -734,7 +852,7 @@ func c17Configs(e explore.Env) ([]c17Config, string) {
 				}
 			}
 		}
-		return cfgs, fmt.Sprintf("close causes {local close, remote close, idle timeout, Transport.Close, stateless reset, fatal transport error (an authentic 1-RTT packet with STREAM data on a send-only stream)} x every set of <= %d concurrently blocked client calls out of %v x 3 positions (right after the handshake, 300 ms later, during a server-to-client transfer) + timing configurations + spec-driven client + 1 fault on the closing exchange; handshake timeout (silent peer) and dial cancellation at each of the first 8 datagrams; Transport.Close while Dial is in flight (from inside the Tracer callback, after the first datagram, 20 ms later); keep-alive answered for 5 idle periods then path death; path death while the application keeps writing every quarter idle period (3 timing configurations x plain/spec-driven x 2 call sets)", maxSet, c17Calls)
+		return cfgs, fmt.Sprintf("close causes {local close, remote close, idle timeout, Transport.Close, stateless reset, fatal transport error (an authentic 1-RTT packet with STREAM data on a send-only stream)} x every set of <= %d concurrently blocked client calls out of %v x 3 positions (right after the handshake, 300 ms later, during a server-to-client transfer) + timing configurations + spec-driven client + 1 fault on the closing exchange + connection histories {resumed with DialEarly and 0-RTT accepted (streams opened and written before the handshake completes), 0-RTT rejected and the application went on with NextConnection} x every set of <= %d blocked calls and 3 sets of 3 x 3 positions; handshake timeout (silent peer) and dial cancellation at each of the first 8 datagrams; Transport.Close while Dial is in flight (from inside the Tracer callback, after the first datagram, 20 ms later); keep-alive answered for 5 idle periods then path death; path death while the application keeps writing every quarter idle period (3 timing configurations x plain/spec-driven x 2 call sets)", maxSet, c17Calls, histSet)
 	}
 }
 
